@@ -13,7 +13,7 @@ from .. import core, indreg, progs, session as S
 from ..core import Violation
 
 ID = 'C13'
-TREE_SIGMA = ['U2w', 'D1', 'GU']
+TREE_SIGMA = ['U2w', 'D1', 'FLAT']
 
 
 def _exempt_tail(name, kw):
@@ -62,6 +62,8 @@ def _stem_job(args):
         plans = [('default', var['default'], 'close')]
         if 'other' in var:
             plans.append(('other', var['other'], 'close'))
+        if 'small' in var:
+            plans.append(('small', var['small'], 'close'))
         if indreg.has(f, 'source_type'):
             plans.append(('default', var['default'], 'hl2'))
             if not quick:
@@ -74,7 +76,7 @@ def _stem_job(args):
             elif src != 'close':
                 continue
             found = False
-            for sname in (st if not quick else {k: st[k] for k in ('trend', 'spike', 'walk1')}):
+            for sname in (st if not quick else {k: st[k] for k in ('trend', 'spike', 'walk1', 'notrade')}):
                 full_c, second = st[sname], st2[sname]
                 try:
                     full = indreg.call(name, f, full_c, True, kw, second)
